@@ -809,7 +809,7 @@ def directed_concat_calls():
         ("a (b + c) d -> d (b + c) a", [(2, 3, 2)], {"b": 1}),
         ("a (b + c) d -> a b d, d c a", [(2, 3, 2)], {"b": 1}),
         ("a c, b c -> c (a + b)", [(2, 2), (1, 2)], {}),
-        ("d a (b + c) -> (b + c) a d", [(2, 2, 4)], {"b": 2}),
+        ("d a (b + c) -> (b + c) a d", [(2, 4, 4)], {"b": 2}),      # a sibling as long as the concatenation, equal blocks
     ]:
         out.append({"op": "id", "family": "id", "desc": desc, "shapes": shapes, "kwargs": kw, "note": ["directed-concat"],
                     "backend": None, "regroup_concat": True})
